@@ -35,6 +35,7 @@ import Fcgi.Props.C07Writers4
 import Fcgi.Props.C07ScriptFuel
 import Fcgi.Props.C07Echo
 import Fcgi.Props.C07NoFuel
+import Fcgi.Props.C07Echo2
 import Fcgi.Props.C08
 import Fcgi.Props.C08Inv
 import Fcgi.Props.C08Replies
@@ -43,6 +44,7 @@ import Fcgi.Props.C08Replies3
 import Fcgi.Props.C09
 import Fcgi.Props.C09E2E
 import Fcgi.Props.C09Gate
+import Fcgi.Props.C09Gate2
 import Fcgi.Props.C10
 import Fcgi.Props.C10Clone
 import Fcgi.Props.C10Clone2
@@ -88,6 +90,11 @@ import Fcgi.Props.C18
 import Fcgi.Props.C18Held
 import Fcgi.Props.C19
 import Fcgi.Props.C20
+import Fcgi.Props.C09Gate3
+import Fcgi.Props.C11NoFuel
+import Fcgi.Props.C14NoFuel
+import Fcgi.Props.C12NoFuel
+import Fcgi.Props.C07NoFuel2
 
 /-!
 # Headline — one checked statement per property
@@ -117,10 +124,13 @@ only (named per clause); single request unless a clause says otherwise.  The end
 handler fuel pays for what is left of the handler script (`Model/RunLoop.lean`, `Props/C07ScriptFuel.lean`: the fuel
 guard is unreachable for every script), so no statement about the model NEEDS a fuel hypothesis any more.  `hhf` is
 GONE from the core family (C07 Clauses 1–4, `Props/C07NoFuel.lean`: single request of every role, k keep-alive
-requests) and from the echo Responder (C07 Clause 21).  It REMAINS, as an artefact of the proofs only (removable by the
-recipe of `Proofs/E2ENoFuel.lean`), in: C07 Clauses 6, 8 (`wcost |data| + c ≤ 1000`), 10–12 (`2·n + …`: the number of
-`fill_buf`/`consume` rounds), 13–20 (`wcostAll W` / `fcost W`: writes, flushes, output records); C11 Clause 5 and the
-follow-up requests `Sent.OKu` of C11 Clauses 1, 6, 9; C12 Clauses 1–3, 5, 9, 10, 12, 13; C14 Clauses 1–2.
+requests) and from the echo Responder (C07 Clauses 21, 23) and the Filter gate theorems (C09 Clauses 11–15).  It is also gone from C07 Clause 6 (`C07NoFuel2`), C11 Clause 5
+(`C11NoFuel`), C12 Clauses 1, 5, 9, 10 (`C12NoFuel`: Responder EOF / failure at any offset, write error, read error at
+any index) and C14 Clauses 1–2 (`C14NoFuel`).  It REMAINS, as an artefact of the proofs only (removable by the recipe of
+`Proofs/E2ENoFuel.lean`), in: C07 Clause 8 (`wcost |data| + 8 ≤ 1000`), 10–12 (`2·n + …`: the number of
+`fill_buf`/`consume` rounds), 13–20 (`wcostAll W` / `fcost W`: writes, flushes, output records); the follow-up requests
+`Sent.OKu` of C11 Clauses 1, 6, 9; C12 Clauses 2, 3 (Filter / Authorizer any-offset) and 12–13 (chain: `UReq.OKu` and the
+last request's `hhf`).
 `C11Clause7` is the `_anysize` table of
 `Props/C11FilterAnysize.lean` (no `|Stdin wire| ≤ 31000`).
 
@@ -1496,17 +1506,18 @@ end Fcgi.Headline
   `Props/C07Writers.lean` … `C07Writers4.lean`; 17–18, 20: a Filter), the echo Responder — writes
   interleaved with reads (Clauses 21–22, `Props/C07Echo.lean`).  All e2e clauses are size-free: no bound on
   the wire length or the buffer.  MODEL FUEL: since the model's handler fuel pays for what is left of the
-  handler script (`Props/C07ScriptFuel.lean`), Clauses 1–4 (`Props/C07NoFuel.lean`) and 21 have NO fuel
-  hypothesis; in the other clauses `hhf` is still in the statement but is now an artefact of their PROOFS
-  only (removable by the recipe of `Proofs/E2ENoFuel.lean`): `wcost |data| + c ≤ 1000` (Clauses 6, 8), the
-  number of `fill_buf`/`consume` rounds `2·n + …` (Clauses 10–12; Clause 10 also needs `|content| ≤ n`), the
-  number of writes, flushes and output records `wcostAll W` / `fcost W` (Clauses 13–20).  Clauses 15–20 also
-  need `hfl` (no error among the flush answers); Clauses 15 and 17 also need `hmore` (later scripts
-  propagate errors; forced by the proof — in the chain theorems of Clauses 16 and 18 it holds by
-  construction); Clauses 19–20 are Clauses 15 and 17 WITHOUT `hmore` (`E2E.stepConn_fs`).  Clause 21: reads
-  of ONE byte (`m = 1`: the unrolled script is then independent of the transport's chunking) and `hquiet`
-  (the noise inside Stdin owes no reply — the read simulation has no ledger for replies interleaved with
-  handler records).
+  handler script (`Props/C07ScriptFuel.lean`), Clauses 1–4 (`Props/C07NoFuel.lean`), 6 and 21–24 have NO
+  fuel hypothesis; in the other clauses `hhf` is still in the statement but is now an artefact of their
+  PROOFS only (removable by the recipe of `Proofs/E2ENoFuel.lean`): `wcost |data| + c ≤ 1000` (Clause 8;
+  Clause 6 is the `_nofuel` version of `Props/C07NoFuel2.lean`), the number of `fill_buf`/`consume` rounds
+  `2·n + …` (Clauses 10–12; Clause 10 also needs `|content| ≤ n`), the number of writes, flushes and output
+  records `wcostAll W` / `fcost W` (Clauses 13–20).  Clauses 15–20 also need `hfl` (no error among the flush
+  answers); Clauses 15 and 17 also need `hmore` (later scripts propagate errors; forced by the proof — in
+  the chain theorems of Clauses 16 and 18 it holds by construction); Clauses 19–20 are Clauses 15 and 17
+  WITHOUT `hmore` (`E2E.stepConn_fs`).  Clause 21: reads of ONE byte (`m = 1`: the unrolled script is then
+  independent of the transport's chunking) and `hquiet` (the noise inside Stdin owes no reply); Clauses
+  23–24 (`Props/C07Echo2.lean`, ledger `Proofs/E2ELedger`) remove `hquiet`: the log is then an interleaving
+  of replies and handler records (not stated: that no reply RECORD is cut by a handler record).
 
 **The conjuncts of `C07_headline`.**
 1. `C07E.single_request_e2e_nofuel` — Responder, canonical handler, any benign transport, ANY wire length:
@@ -1520,7 +1531,7 @@ end Fcgi.Headline
    connection goes on from `close` ONLY IF the request had KEEP_CONN, no writer was alive, and `close` wrote
    everything pending plus the epilogue with the handler's status (step level; both directions at run level are
    the `final` fields of Clauses 1–4)
-6. `C07U.unread_request_e2e_unbounded` — handler reads nothing: served, the unread stream goes to the next
+6. `C07U.unread_request_e2e_nofuel` — handler reads nothing: served, the unread stream goes to the next
    request parser (no size bound)
 7. `C07U.unread_prefix_e2e_unbounded` — handler reads a strict prefix (no size bound)
 8. `C07U.authorizer_tail_e2e_unbounded` — Authorizer followed by more traffic
@@ -1548,6 +1559,11 @@ end Fcgi.Headline
    of that byte; …): one Stdout record per content byte, in order; restrictions: reads of 1 byte, Stdin noise
    that owes no reply (`hquiet`); no fuel hypothesis
 22. `C07W.payloads_echo` — … and the concatenated Stdout payloads ARE the Stdin content
+23. `C07W.echo_responder_e2e_noise` — the echo Responder with ANY Stdin noise (no `hquiet`): the log behind
+   the preamble replies is an INTERLEAVING (`Ilv`) of the replies owed for the noise and the handler output
+   (one Stdout record per content byte, then the epilogue)
+24. `C07W.ilv_segs` — … `Ilv w a h`: `w` is a concatenation of segments whose reply pieces concatenate to
+   `a` and whose handler pieces concatenate to `h`, each in order
 
 **Modelling assumptions (obligations.json).**
 * executor fairness, real sockets and wakers beyond the harness' flag/counting wakers are outside the model
@@ -1692,7 +1708,7 @@ end
 section
 namespace Fcgi.C07U
 open Fcgi Fcgi.Req Fcgi.Str Fcgi.Async Fcgi.Run Fcgi.Spec Fcgi.E2E Fcgi.C07E
-/-- handler reads nothing: served, the unread stream goes to the next request parser (no size bound)  (= `Fcgi.C07U.unread_request_e2e_unbounded`, `Props/C07Unbounded.lean`) -/
+/-- handler reads nothing: served, the unread stream goes to the next request parser (no size bound)  (= `Fcgi.C07U.unread_request_e2e_nofuel`, `Props/C07NoFuel2.lean`) -/
 def C07Clause6 : Prop :=
   ∀ {p : Preamble} {recs : List Rec} {content : Bytes} {srecs : List Rec}
     {b mc : Nat} {data : Bytes} {st : ExitStatus} {hs : List HOp} {more : List (List HOp × Bool)}
@@ -1704,8 +1720,7 @@ def C07Clause6 : Prop :=
     (hstr : StreamRecs p.id 5 content srecs) (hsn : NoiseFits (alignedBufsize b) srecs)
     (hnb : ∀ r ∈ srecs, r.rtype.toNat ≠ RT.beginRequest)
     (hin : t.input = serAll recs ++ serAll srecs) (hben : Ben t) (hev : hsCount t.events = 0)
-    (hfuel : t.rd.length + t.wr.length + 1 ≤ fuel)
-    (hhf : wcost data.length + 4 ≤ 1000),
+    (hfuel : t.rd.length + t.wr.length + 1 ≤ fuel),
     ∃ c' fin, runTask fuel (connS b mc t ((hs, true) :: more)) 0 none = (c', fin) ∧
       UnreadOutcome p srecs b mc
         (t.wlog ++ (owedPreamble p mc recs ++ streamRecords 6 p.id data ++ epilogue p.id st ++
@@ -1713,7 +1728,7 @@ def C07Clause6 : Prop :=
 
 theorem C07Clause6_holds : C07Clause6 := by
   unfold C07Clause6
-  exact @unread_request_e2e_unbounded
+  exact @unread_request_e2e_nofuel
 
 end Fcgi.C07U
 end
@@ -2160,6 +2175,47 @@ theorem C07Clause22_holds : C07Clause22 := by
 end Fcgi.C07W
 end
 
+section
+namespace Fcgi.C07W
+open Fcgi Fcgi.Req Fcgi.Str Fcgi.Async Fcgi.Run Fcgi.Spec Fcgi.E2E Fcgi.C07E Fcgi.C07U Fcgi.C07B
+/-- the echo Responder with ANY Stdin noise (no `hquiet`): the log behind the preamble replies is an INTERLEAVING (`Ilv`) of the replies owed for the noise and the handler output (one Stdout record per content byte, then the epilogue)  (= `Fcgi.C07W.echo_responder_e2e_noise`, `Props/C07Echo2.lean`) -/
+def C07Clause23 : Prop :=
+  ∀ {p : Preamble} {recs : List Rec} {content : Bytes} {srecs : List Rec}
+    {b mc : Nat} {st : ExitStatus} {more : List (List HOp × Bool)} {t : Transport} {fuel : Nat}
+    (hwf : WellFormedPreamble p recs) (hrole : p.role = 1)
+    (hpairs : ∀ q ∈ p.pairs, (NV.enc q).length ≤ alignedBufsize b)
+    (hnoise : NoiseFits (alignedBufsize b) recs)
+    (hs : StreamRecs p.id 5 content srecs) (hsn : NoiseFits (alignedBufsize b) srecs)
+    (hin : t.input = serAll recs ++ serAll srecs) (hben : Ben t) (hev : hsCount t.events = 0)
+    (hfuel : t.rd.length + t.wr.length + 1 ≤ fuel),
+    ∃ c' fin pad res,
+      runTask fuel (connS b mc t ((echoScript content st, true) :: more)) 0 none = (c', fin) ∧
+      EchoNoiseOutcome p recs content srecs pad res b mc st more t c' fin
+
+theorem C07Clause23_holds : C07Clause23 := by
+  unfold C07Clause23
+  exact @echo_responder_e2e_noise
+
+end Fcgi.C07W
+end
+
+section
+namespace Fcgi.C07W
+open Fcgi Fcgi.Req Fcgi.Str Fcgi.Async Fcgi.Run Fcgi.Spec Fcgi.E2E Fcgi.C07E Fcgi.C07U Fcgi.C07B
+/-- … `Ilv w a h`: `w` is a concatenation of segments whose reply pieces concatenate to `a` and whose handler pieces concatenate to `h`, each in order  (= `Fcgi.C07W.ilv_segs`, `Props/C07Echo2.lean`) -/
+def C07Clause24 : Prop :=
+  ∀ {w a h : Bytes} (hi : Ilv w a h),
+    ∃ segs : List (Bool × Bytes), w = (segs.map Prod.snd).flatten ∧
+      ((segs.filter fun s => s.1).map Prod.snd).flatten = a ∧
+      ((segs.filter fun s => !s.1).map Prod.snd).flatten = h
+
+theorem C07Clause24_holds : C07Clause24 := by
+  unfold C07Clause24
+  exact @ilv_segs
+
+end Fcgi.C07W
+end
+
 namespace Fcgi.Headline
 /-- **C07** — see the section comment above for the clause-by-clause reading. -/
 theorem C07_headline :
@@ -2184,8 +2240,10 @@ theorem C07_headline :
     Fcgi.C07W.C07Clause19 ∧
     Fcgi.C07W.C07Clause20 ∧
     Fcgi.C07W.C07Clause21 ∧
-    Fcgi.C07W.C07Clause22 :=
-  ⟨Fcgi.C07E.C07Clause1_holds, Fcgi.C07E.C07Clause2_holds, Fcgi.C07E.C07Clause3_holds, Fcgi.C07E.C07Clause4_holds, Fcgi.Headline.C07Clause5_holds, Fcgi.C07U.C07Clause6_holds, Fcgi.C07U.C07Clause7_holds, Fcgi.C07U.C07Clause8_holds, Fcgi.C07U.C07Clause9_holds, Fcgi.C07B.C07Clause10_holds, Fcgi.C07B.C07Clause11_holds, Fcgi.C07B.C07Clause12_holds, Fcgi.C07W.C07Clause13_holds, Fcgi.C07W.C07Clause14_holds, Fcgi.C07W.C07Clause15_holds, Fcgi.C07W.C07Clause16_holds, Fcgi.C07W.C07Clause17_holds, Fcgi.C07W.C07Clause18_holds, Fcgi.C07W.C07Clause19_holds, Fcgi.C07W.C07Clause20_holds, Fcgi.C07W.C07Clause21_holds, Fcgi.C07W.C07Clause22_holds⟩
+    Fcgi.C07W.C07Clause22 ∧
+    Fcgi.C07W.C07Clause23 ∧
+    Fcgi.C07W.C07Clause24 :=
+  ⟨Fcgi.C07E.C07Clause1_holds, Fcgi.C07E.C07Clause2_holds, Fcgi.C07E.C07Clause3_holds, Fcgi.C07E.C07Clause4_holds, Fcgi.Headline.C07Clause5_holds, Fcgi.C07U.C07Clause6_holds, Fcgi.C07U.C07Clause7_holds, Fcgi.C07U.C07Clause8_holds, Fcgi.C07U.C07Clause9_holds, Fcgi.C07B.C07Clause10_holds, Fcgi.C07B.C07Clause11_holds, Fcgi.C07B.C07Clause12_holds, Fcgi.C07W.C07Clause13_holds, Fcgi.C07W.C07Clause14_holds, Fcgi.C07W.C07Clause15_holds, Fcgi.C07W.C07Clause16_holds, Fcgi.C07W.C07Clause17_holds, Fcgi.C07W.C07Clause18_holds, Fcgi.C07W.C07Clause19_holds, Fcgi.C07W.C07Clause20_holds, Fcgi.C07W.C07Clause21_holds, Fcgi.C07W.C07Clause22_holds, Fcgi.C07W.C07Clause23_holds, Fcgi.C07W.C07Clause24_holds⟩
 end Fcgi.Headline
 
 
@@ -2549,6 +2607,11 @@ end Fcgi.Headline
 12. `C09G.gateAt_facts` — … `GateAt`: the request is writeable, the COMPLETE Stdin stream incl. its
    terminator was taken from the transport, the log holds no handler byte
 13. `C09G.wh_facts` — … before the gate (`WH`): no writer exists, not writeable, log = owed replies only
+14. `C09G.filter_gate_free` — the gate theorem stated WITHOUT a configuration: every conclusion in terms of
+   `p recs srecs drecs mc t rest more` (`PreGate`, `GatePollFree`)
+15. `C09G.filter_gate_write_e2e` — the WHOLE run of `writeable(); open Stdout; write_all(data); return` on a
+   Filter whose Data stream is never read: the Stdout records stand inside the owed replies, then the epilogue;
+   every `data`, no fuel hypothesis
 
 **Modelling assumptions (obligations.json).**
 * real wakers are not modelled at the poll level (the harness polls when the script says so)
@@ -2562,9 +2625,11 @@ end Fcgi.Headline
 
 **Not proved as theorems — carried by the differential run + oracle, or trusted.**
 * real wakers are not modelled at the poll level
-* Clauses 11–13 (`filter_gate_e2e`): the run AFTER the gate poll is not covered (handler records and parser
-  replies interleave; no ledger for that in `Proofs/E2EStr`); hypotheses: canonical Filter wire within the
-  buffer bound, `Ben t`, handler script `.writeable :: rest` with arbitrary `rest`
+* Clauses 11–13 (`filter_gate_e2e`): the run AFTER the gate poll is covered only for `rest = open Stdout;
+  write_all(data); drop; return` with Data unread (Clause 15, `Props/C09Gate2.lean`); Clause 14
+  (`Props/C09Gate3.lean`) restates the gate theorem without the existential configuration; hypotheses:
+  canonical Filter wire within the buffer bound, `Ben t`, handler script `.writeable :: rest` with arbitrary
+  `rest`
 
 -/
 
@@ -2819,6 +2884,60 @@ theorem C09Clause13_holds : C09Clause13 := by
 end Fcgi.C09G
 end
 
+section
+namespace Fcgi.C09G
+open Fcgi Fcgi.Req Fcgi.Str Fcgi.Async Fcgi.Run Fcgi.Spec Fcgi.E2E Fcgi.C07E Fcgi.C07U
+/-- the gate theorem stated WITHOUT a configuration: every conclusion in terms of `p recs srecs drecs mc t rest more` (`PreGate`, `GatePollFree`)  (= `Fcgi.C09G.filter_gate_free`, `Props/C09Gate3.lean`) -/
+def C09Clause14 : Prop :=
+  ∀ {p : Preamble} {recs : List Rec} {content : Bytes} {srecs : List Rec}
+    {content2 : Bytes} {drecs : List Rec}
+    {b mc : Nat} {rest : List HOp} {more : List (List HOp × Bool)} {t : Transport}
+    (hwf : WellFormedPreamble p recs) (hrole : p.role = 3)
+    (hpairs : ∀ q ∈ p.pairs, (NV.enc q).length ≤ alignedBufsize b)
+    (hnoise : NoiseFits (alignedBufsize b) recs)
+    (hs : StreamRecs p.id 5 content srecs) (hsn : NoiseFits (alignedBufsize b) srecs)
+    (hd : StreamRecs p.id 8 content2 drecs) (hdn : NoiseFits (alignedBufsize b) drecs)
+    (hin : t.input = serAll recs ++ (serAll srecs ++ serAll drecs)) (hben : Ben t) (hev : hsCount t.events = 0),
+    ∃ k : Nat, k ≤ t.rd.length + t.wr.length ∧
+      (∀ j, j ≤ k → ∃ cj, runTask j (connS b mc t ((.writeable :: rest, true) :: more)) 0 none = (cj, "FUEL") ∧
+        PreGate p recs srecs drecs mc t.wlog rest cj) ∧
+      ∃ ck, runTask k (connS b mc t ((.writeable :: rest, true) :: more)) 0 none = (ck, "FUEL") ∧
+        GatePollFree p recs srecs drecs mc t.wlog rest more (prePoll ck k none)
+
+theorem C09Clause14_holds : C09Clause14 := by
+  unfold C09Clause14
+  exact @filter_gate_free
+
+end Fcgi.C09G
+end
+
+section
+namespace Fcgi.C09G
+open Fcgi Fcgi.Req Fcgi.Str Fcgi.Async Fcgi.Run Fcgi.Spec Fcgi.E2E Fcgi.C07E Fcgi.C07U
+/-- the WHOLE run of `writeable(); open Stdout; write_all(data); return` on a Filter whose Data stream is never read: the Stdout records stand inside the owed replies, then the epilogue; every `data`, no fuel hypothesis  (= `Fcgi.C09G.filter_gate_write_e2e`, `Props/C09Gate2.lean`) -/
+def C09Clause15 : Prop :=
+  ∀ {p : Preamble} {recs : List Rec} {content : Bytes} {srecs : List Rec}
+    {content2 : Bytes} {drecs : List Rec} {data : Bytes}
+    {b mc : Nat} {st : ExitStatus} {more : List (List HOp × Bool)} {t : Transport} {fuel : Nat}
+    (hwf : WellFormedPreamble p recs) (hrole : p.role = 3)
+    (hpairs : ∀ q ∈ p.pairs, (NV.enc q).length ≤ alignedBufsize b)
+    (hnoise : NoiseFits (alignedBufsize b) recs)
+    (hs : StreamRecs p.id 5 content srecs) (hsn : NoiseFits (alignedBufsize b) srecs)
+    (hd : StreamRecs p.id 8 content2 drecs) (hdn : NoiseFits (alignedBufsize b) drecs)
+    (hnb : ∀ r ∈ drecs, r.rtype.toNat ≠ RT.beginRequest)
+    (hin : t.input = serAll recs ++ (serAll srecs ++ serAll drecs)) (hben : Ben t) (hev : hsCount t.events = 0)
+    (hfuel : t.rd.length + t.wr.length + 1 ≤ fuel),
+    ∃ c' fin d₁ s₂ O₁ O₂,
+      runTask fuel (connS b mc t ((.writeable :: gateRest data st, true) :: more)) 0 none = (c', fin) ∧
+      GateWriteOutcome p recs srecs drecs d₁ s₂ O₁ O₂ data b mc st more t c' fin
+
+theorem C09Clause15_holds : C09Clause15 := by
+  unfold C09Clause15
+  exact @filter_gate_write_e2e
+
+end Fcgi.C09G
+end
+
 namespace Fcgi.Headline
 /-- **C09** — see the section comment above for the clause-by-clause reading. -/
 theorem C09_headline :
@@ -2834,8 +2953,10 @@ theorem C09_headline :
     Fcgi.C09E.C09Clause10 ∧
     Fcgi.C09G.C09Clause11 ∧
     Fcgi.C09G.C09Clause12 ∧
-    Fcgi.C09G.C09Clause13 :=
-  ⟨Fcgi.C09E.C09Clause1_holds, Fcgi.C09E.C09Clause2_holds, Fcgi.C09E.C09Clause3_holds, Fcgi.C09E.C09Clause4_holds, Fcgi.C09.C09Clause5_holds, Fcgi.C09E.C09Clause6_holds, Fcgi.C09E.C09Clause7_holds, Fcgi.C09.C09Clause8_holds, Fcgi.C09E.C09Clause9_holds, Fcgi.C09E.C09Clause10_holds, Fcgi.C09G.C09Clause11_holds, Fcgi.C09G.C09Clause12_holds, Fcgi.C09G.C09Clause13_holds⟩
+    Fcgi.C09G.C09Clause13 ∧
+    Fcgi.C09G.C09Clause14 ∧
+    Fcgi.C09G.C09Clause15 :=
+  ⟨Fcgi.C09E.C09Clause1_holds, Fcgi.C09E.C09Clause2_holds, Fcgi.C09E.C09Clause3_holds, Fcgi.C09E.C09Clause4_holds, Fcgi.C09.C09Clause5_holds, Fcgi.C09E.C09Clause6_holds, Fcgi.C09E.C09Clause7_holds, Fcgi.C09.C09Clause8_holds, Fcgi.C09E.C09Clause9_holds, Fcgi.C09E.C09Clause10_holds, Fcgi.C09G.C09Clause11_holds, Fcgi.C09G.C09Clause12_holds, Fcgi.C09G.C09Clause13_holds, Fcgi.C09G.C09Clause14_holds, Fcgi.C09G.C09Clause15_holds⟩
 end Fcgi.Headline
 
 
@@ -3104,7 +3225,7 @@ end Fcgi.Headline
   (`abort_mid_stream_e2e_unbounded`, `abort_own_status_e2e_unbounded`).
 * “input delivered before the error is a prefix of what the client sent, an AbortRequest for any other id is
   ignored, and with keep-connection the same connection then serves the next request” — Clauses 4–6
-  (`abort_mid_stream_prefix_e2e_unbounded`, `foreign_abort_ignored_e2e_unbounded`,
+  (`abort_mid_stream_prefix_e2e_unbounded`, `foreign_abort_ignored_e2e_nofuel`,
   `abort_mid_stream_next_e2e_unbounded`); Clause 7 (`filter_abort_table_full_anysize`,
   `Props/C11FilterAnysize.lean`: no bound on the Stdin wire either): every abort placement × handler row for
   a Filter, exactly one EndRequest each.
@@ -3120,7 +3241,7 @@ end Fcgi.Headline
 3. `C11E.abort_own_status_e2e_unbounded` — … unless the handler chose its own status
 4. `C11E.abort_mid_stream_prefix_e2e_unbounded` — input delivered before the error is a prefix of what was
    sent
-5. `C11E.foreign_abort_ignored_e2e_unbounded` — an AbortRequest for another id is ignored
+5. `C11E.foreign_abort_ignored_e2e_nofuel` — an AbortRequest for another id is ignored
 6. `C11E.abort_mid_stream_next_e2e_unbounded` — with KEEP_CONN the connection serves the next request
 7. `C11F.filter_abort_table_full_anysize` — Filter: every placement of the abort × handler row, any sizes
 8. `C11E.abort_in_params_alone_e2e_unbounded` — abort inside Params with nothing behind it
@@ -3256,7 +3377,7 @@ end
 section
 namespace Fcgi.C11E
 open Fcgi Fcgi.Req Fcgi.Str Fcgi.Async Fcgi.Run Fcgi.Spec Fcgi.E2E Fcgi.C07E
-/-- an AbortRequest for another id is ignored  (= `Fcgi.C11E.foreign_abort_ignored_e2e_unbounded`, `Props/E2EUnbounded.lean`) -/
+/-- an AbortRequest for another id is ignored  (= `Fcgi.C11E.foreign_abort_ignored_e2e_nofuel`, `Props/C11NoFuel.lean`) -/
 def C11Clause5 : Prop :=
   ∀ {p : Preamble} {recs : List Rec} {content : Bytes} {s1 s2 : List Rec}
     {f : Rec} {b mc : Nat} {data : Bytes} {st : ExitStatus} {t : Transport} {fuel : Nat}
@@ -3266,16 +3387,14 @@ def C11Clause5 : Prop :=
     (hs : StreamRecs p.id 5 content (s1 ++ s2)) (hs2 : s2 ≠ [])
     (hsn : NoiseFits (alignedBufsize b) (s1 ++ s2)) (hf : ForeignAbort p.id f)
     (hin : t.input = serAll recs ++ serAll (s1 ++ f :: s2)) (hben : Ben t) (hev : hsCount t.events = 0)
-    (hfuel : t.rd.length + t.wr.length + 1 ≤ fuel)
-   
-    (hhf : wcost data.length + 12 ≤ 1000),
+    (hfuel : t.rd.length + t.wr.length + 1 ≤ fuel),
     ∃ c' fin O₁ O₂, runTask fuel (conn0 b mc t data st) 0 none = (c', fin) ∧
       O₁ ++ O₂ = owedStream p.id 5 mc (s1 ++ s2) ∧
       OutcomeN p content b mc t.wlog (expectedLogN p recs mc data st O₁ O₂) t c' fin
 
 theorem C11Clause5_holds : C11Clause5 := by
   unfold C11Clause5
-  exact @foreign_abort_ignored_e2e_unbounded
+  exact @foreign_abort_ignored_e2e_nofuel
 
 end Fcgi.C11E
 end
@@ -3503,36 +3622,36 @@ end Fcgi.Headline
 * “EOF or an error at any byte position of the incoming stream, or on any write: the task terminates without
   panicking or spinning” — Clauses 1–3 (EOF at ANY offset, all three roles: always `RET`/`finished`), Clause
   10 (the transport FAILS instead of ending, any offset), Clause 9 (a read error at ANY read-call index),
-  Clause 5 (`write_error_e2e_unbounded`), Clause 8 (`run_panics_are_code_panics`: every PANIC of a poll is
-  the script-fuel guard or a crate assertion; no size bound).
+  Clause 5 (`write_error_e2e_nofuel`), Clause 8 (`run_panics_are_code_panics`: every PANIC of a poll is the
+  script-fuel guard or a crate assertion; no size bound).
 * “no handler is invoked for a request whose preamble did not arrive completely” — the `k < |preamble| →
   hsCount = 0` conjuncts of Clauses 1–3 and 10; Clause 11 (read error inside the preamble).
 * “a handler waiting for input that will never come receives an unexpected-EOF (or the transport's) error
   rather than a successful short or empty read” — the `readEofEvent` conjuncts of Clauses 1–2; Clause 4
   (`read_err_mid_stream_e2e_unbounded`: exactly the transport's error).
 * “for a handler that propagates I/O errors, nothing is written after a failed write and everything written
-  before it is a prefix of a well-formed record sequence” — Clauses 5–7 (`write_error_e2e_unbounded`,
+  before it is a prefix of a well-formed record sequence” — Clauses 5–7 (`write_error_e2e_nofuel`,
   `runTask_write_failure`, `prefix_wellformed_partial`); false without propagation
   (`write_failure_is_final_full_false`).  The e2e clauses (1–5, 9–11) are the `_unbounded` versions of
   `Props/C12Unbounded.lean`: wire and buffer of any size.
 
 **The conjuncts of `C12_headline`.**
-1. `C12E.eof_any_offset_e2e_unbounded` — Responder: EOF at ANY offset of the wire
+1. `C12E.eof_any_offset_e2e_nofuel` — Responder: EOF at ANY offset of the wire
 2. `C12E.eof_any_offset_filter_all_e2e_unbounded` — Filter: EOF at ANY offset
 3. `C12E.eof_any_offset_auth_closed_e2e_unbounded` — Authorizer with tail traffic: EOF at ANY offset, closed
    final state
 4. `C12E.read_err_mid_stream_e2e_unbounded` — a read ERROR mid-stream: the handler gets exactly the
    transport's error
-5. `C12E.write_error_e2e_unbounded` — a write error at ANY index: RET, nothing written after it, at most one
+5. `C12E.write_error_e2e_nofuel` — a write error at ANY index: RET, nothing written after it, at most one
    handler
 6. `C12Inv.runTask_write_failure` — fail-stop for propagating handlers over whole runs
 7. `C12Inv.prefix_wellformed_partial` — the write log is at every moment a prefix of a well-formed record
    sequence
 8. `C12Fuel.run_panics_are_code_panics` — no panic/spin, no size bound: a PANIC of a poll made by `runTask`
    (fuel `connFuel c`) is the handler-script fuel guard or a real assertion of the crate
-9. `C12E.read_error_at_index_e2e_unbounded` — a read ERROR injected at ANY read-call index
-10. `C12E.read_err_any_offset_e2e_unbounded` — the transport FAILS (instead of ending) at ANY byte offset:
-   RET, same log and handler count as the EOF run (from `runTask_eof_err`)
+9. `C12E.read_error_at_index_e2e_nofuel` — a read ERROR injected at ANY read-call index
+10. `C12E.read_err_any_offset_e2e_nofuel` — the transport FAILS (instead of ending) at ANY byte offset: RET,
+   same log and handler count as the EOF run (from `runTask_eof_err`)
 11. `C12E.read_err_in_preamble_e2e_unbounded` — a read error inside the preamble is swallowed: no handler
 12. `C12E.eof_in_last_request_e2e` — k complete keep-alive requests, then EOF at ANY offset inside the wire
    of one more Responder request: the k are answered completely, then RET; k or k+1 handler starts; log = k
@@ -3566,7 +3685,7 @@ end Fcgi.Headline
 section
 namespace Fcgi.C12E
 open Fcgi Fcgi.Req Fcgi.Str Fcgi.Async Fcgi.Run Fcgi.Spec Fcgi.E2E Fcgi.C07E Fcgi.C07U Fcgi.C12Inv Fcgi.Indep3 Fcgi.EofErr
-/-- Responder: EOF at ANY offset of the wire  (= `Fcgi.C12E.eof_any_offset_e2e_unbounded`, `Props/C12Unbounded.lean`) -/
+/-- Responder: EOF at ANY offset of the wire  (= `Fcgi.C12E.eof_any_offset_e2e_nofuel`, `Props/C12NoFuel.lean`) -/
 def C12Clause1 : Prop :=
   ∀ {p : Preamble} {recs : List Rec} {content : Bytes} {srecs : List Rec}
     {b mc : Nat} {data : Bytes} {st : ExitStatus} {t : Transport} {fuel : Nat} (k : Nat)
@@ -3575,8 +3694,7 @@ def C12Clause1 : Prop :=
     (hnoise : NoiseFits (alignedBufsize b) recs)
     (hs : StreamRecs p.id 5 content srecs) (hsn : NoiseFits (alignedBufsize b) srecs)
     (hin : t.input = (serAll recs ++ serAll srecs).take k) (hben : Ben t) (hem : t.endMode = .eof)
-    (hev : hsCount t.events = 0) (hfuel : t.rd.length + t.wr.length + 1 ≤ fuel)
-    (hhf : wcost data.length + 12 ≤ 1000),
+    (hev : hsCount t.events = 0) (hfuel : t.rd.length + t.wr.length + 1 ≤ fuel),
     ∃ c' O₁ O₂, runTask fuel (conn0 b mc t data st) 0 none = (c', "RET") ∧ c'.phase = .finished ∧
       O₁ ++ O₂ = owedStream p.id 5 mc srecs ∧
       -- the log is a byte prefix of a complete log
@@ -3595,7 +3713,7 @@ def C12Clause1 : Prop :=
 
 theorem C12Clause1_holds : C12Clause1 := by
   unfold C12Clause1
-  exact @eof_any_offset_e2e_unbounded
+  exact @eof_any_offset_e2e_nofuel
 
 end Fcgi.C12E
 end
@@ -3702,7 +3820,7 @@ end
 section
 namespace Fcgi.C12E
 open Fcgi Fcgi.Req Fcgi.Str Fcgi.Async Fcgi.Run Fcgi.Spec Fcgi.E2E Fcgi.C07E Fcgi.C07U Fcgi.C12Inv Fcgi.Indep3 Fcgi.EofErr
-/-- a write error at ANY index: RET, nothing written after it, at most one handler  (= `Fcgi.C12E.write_error_e2e_unbounded`, `Props/C12Unbounded.lean`) -/
+/-- a write error at ANY index: RET, nothing written after it, at most one handler  (= `Fcgi.C12E.write_error_e2e_nofuel`, `Props/C12NoFuel.lean`) -/
 def C12Clause5 : Prop :=
   ∀ {p : Preamble} {recs : List Rec} {content : Bytes} {srecs : List Rec}
     {b mc : Nat} {data : Bytes} {st : ExitStatus} {t : Transport} {fuel : Nat}
@@ -3712,8 +3830,7 @@ def C12Clause5 : Prop :=
     (hnoise : NoiseFits (alignedBufsize b) recs)
     (hs : StreamRecs p.id 5 content srecs) (hsn : NoiseFits (alignedBufsize b) srecs)
     (hin : t.input = serAll recs ++ serAll srecs) (hben : Ben { t with wr := pre }) (hev : hsCount t.events = 0)
-    (hfuel : t.rd.length + pre.length + 1 ≤ fuel)
-    (hhf : wcost data.length + 12 ≤ 1000),
+    (hfuel : t.rd.length + pre.length + 1 ≤ fuel),
     ∃ c' fin O₁ O₂, runTask fuel (conn0 b mc t data st) 0 none = (c', fin) ∧
       O₁ ++ O₂ = owedStream p.id 5 mc srecs ∧
       (-- the failing answer is never reached: the benign outcome, `bad :: post` still in the script
@@ -3732,7 +3849,7 @@ def C12Clause5 : Prop :=
 
 theorem C12Clause5_holds : C12Clause5 := by
   unfold C12Clause5
-  exact @write_error_e2e_unbounded
+  exact @write_error_e2e_nofuel
 
 end Fcgi.C12E
 end
@@ -3793,7 +3910,7 @@ end
 section
 namespace Fcgi.C12E
 open Fcgi Fcgi.Req Fcgi.Str Fcgi.Async Fcgi.Run Fcgi.Spec Fcgi.E2E Fcgi.C07E Fcgi.C07U Fcgi.C12Inv Fcgi.Indep3 Fcgi.EofErr
-/-- a read ERROR injected at ANY read-call index  (= `Fcgi.C12E.read_error_at_index_e2e_unbounded`, `Props/C12Unbounded.lean`) -/
+/-- a read ERROR injected at ANY read-call index  (= `Fcgi.C12E.read_error_at_index_e2e_nofuel`, `Props/C12NoFuel.lean`) -/
 def C12Clause9 : Prop :=
   ∀ {p : Preamble} {recs : List Rec} {content : Bytes} {srecs : List Rec}
     {b mc : Nat} {data : Bytes} {st : ExitStatus} {t : Transport} {fuel : Nat}
@@ -3803,8 +3920,7 @@ def C12Clause9 : Prop :=
     (hnoise : NoiseFits (alignedBufsize b) recs)
     (hs : StreamRecs p.id 5 content srecs) (hsn : NoiseFits (alignedBufsize b) srecs)
     (hin : t.input = serAll recs ++ serAll srecs) (hben : Ben { t with rd := pre }) (hev : hsCount t.events = 0)
-    (hfuel : pre.length + t.wr.length + 1 ≤ fuel)
-    (hhf : wcost data.length + 12 ≤ 1000),
+    (hfuel : pre.length + t.wr.length + 1 ≤ fuel),
     ∃ c' fin O₁ O₂, runTask fuel (conn0 b mc t data st) 0 none = (c', fin) ∧
       O₁ ++ O₂ = owedStream p.id 5 mc srecs ∧
       ((∃ c1, c' = extC ⟨.err :: post, [], []⟩ c1 ∧
@@ -3817,7 +3933,7 @@ def C12Clause9 : Prop :=
 
 theorem C12Clause9_holds : C12Clause9 := by
   unfold C12Clause9
-  exact @read_error_at_index_e2e_unbounded
+  exact @read_error_at_index_e2e_nofuel
 
 end Fcgi.C12E
 end
@@ -3825,7 +3941,7 @@ end
 section
 namespace Fcgi.C12E
 open Fcgi Fcgi.Req Fcgi.Str Fcgi.Async Fcgi.Run Fcgi.Spec Fcgi.E2E Fcgi.C07E Fcgi.C07U Fcgi.C12Inv Fcgi.Indep3 Fcgi.EofErr
-/-- the transport FAILS (instead of ending) at ANY byte offset: RET, same log and handler count as the EOF run (from `runTask_eof_err`)  (= `Fcgi.C12E.read_err_any_offset_e2e_unbounded`, `Props/C12Unbounded.lean`) -/
+/-- the transport FAILS (instead of ending) at ANY byte offset: RET, same log and handler count as the EOF run (from `runTask_eof_err`)  (= `Fcgi.C12E.read_err_any_offset_e2e_nofuel`, `Props/C12NoFuel.lean`) -/
 def C12Clause10 : Prop :=
   ∀ {p : Preamble} {recs : List Rec} {content : Bytes} {srecs : List Rec}
     {b mc : Nat} {data : Bytes} {st : ExitStatus} {t : Transport} {fuel : Nat} (k : Nat)
@@ -3834,8 +3950,7 @@ def C12Clause10 : Prop :=
     (hnoise : NoiseFits (alignedBufsize b) recs)
     (hs : StreamRecs p.id 5 content srecs) (hsn : NoiseFits (alignedBufsize b) srecs)
     (hin : t.input = (serAll recs ++ serAll srecs).take k) (hben : Ben t) (hem : t.endMode = .eof)
-    (hev : hsCount t.events = 0) (hfuel : t.rd.length + t.wr.length + 1 ≤ fuel)
-    (hhf : wcost data.length + 12 ≤ 1000),
+    (hev : hsCount t.events = 0) (hfuel : t.rd.length + t.wr.length + 1 ≤ fuel),
     ∃ c' O₁ O₂, runTask fuel (conn0 b mc (em .err t) data st) 0 none = (c', "RET") ∧ c'.phase = .finished ∧
       O₁ ++ O₂ = owedStream p.id 5 mc srecs ∧
       (∃ w, c'.env.tr.wlog = t.wlog ++ w ∧ w <+: expectedLogN p recs mc data st O₁ O₂) ∧
@@ -3849,7 +3964,7 @@ def C12Clause10 : Prop :=
 
 theorem C12Clause10_holds : C12Clause10 := by
   unfold C12Clause10
-  exact @read_err_any_offset_e2e_unbounded
+  exact @read_err_any_offset_e2e_nofuel
 
 end Fcgi.C12E
 end
@@ -4125,8 +4240,8 @@ end Fcgi.Headline
 
 **Clause by clause.**
 * “a connection whose handler is running completes that request normally, including its EndRequest, and then
-  stops” — Clauses 1–2 (`stop_any_poll_single_e2e_exact_unbounded`, `stop_any_poll_e2e_exact_unbounded`: the
-  log EQUALS the complete answer(s); requests and buffer of any size).
+  stops” — Clauses 1–2 (`stop_any_poll_single_e2e_exact_nofuel`, `stop_any_poll_e2e_exact_nofuel`: the log
+  EQUALS the complete answer(s); requests and buffer of any size).
 * “no handler invocation begins in any scheduling step that starts after the request was made, and idle
   connections are woken and stop without reading further” — Clauses 3–5 (`stop_in_parse_request`,
   `no_new_handler_after_stop`, `idle_stops_without_reading`).
@@ -4135,9 +4250,9 @@ end Fcgi.Headline
   `woken_for_completion`, `ready_after_all_gone`) over all interleavings of the step model `wgStep`.
 
 **The conjuncts of `C14_headline`.**
-1. `C14E.stop_any_poll_single_e2e_exact_unbounded` — one request, flag at ANY poll: RET; either no handler,
-   or the request completed with its whole log incl. EndRequest
-2. `C14E.stop_any_poll_e2e_exact_unbounded` — two requests: flag while request 2 in flight ⇒ both complete;
+1. `C14E.stop_any_poll_single_e2e_exact_nofuel` — one request, flag at ANY poll: RET; either no handler, or
+   the request completed with its whole log incl. EndRequest
+2. `C14E.stop_any_poll_e2e_exact_nofuel` — two requests: flag while request 2 in flight ⇒ both complete;
    between ⇒ request 2's handler never starts
 3. `C14E.stop_in_parse_request` — an idle connection polled with the flag up stops without a transport call
 4. `C14a.no_new_handler_after_stop` — no handler start in any poll that begins after the flag was raised
@@ -4171,7 +4286,7 @@ end Fcgi.Headline
 section
 namespace Fcgi.C14E
 open Fcgi Fcgi.Req Fcgi.Str Fcgi.Async Fcgi.Run Fcgi.Spec Fcgi.E2E Fcgi.C07E Fcgi.C07U
-/-- one request, flag at ANY poll: RET; either no handler, or the request completed with its whole log incl. EndRequest  (= `Fcgi.C14E.stop_any_poll_single_e2e_exact_unbounded`, `Props/C14Unbounded.lean`) -/
+/-- one request, flag at ANY poll: RET; either no handler, or the request completed with its whole log incl. EndRequest  (= `Fcgi.C14E.stop_any_poll_single_e2e_exact_nofuel`, `Props/C14NoFuel.lean`) -/
 def C14Clause1 : Prop :=
   ∀ {p : Preamble} {recs : List Rec} {content : Bytes} {srecs : List Rec}
     {b mc : Nat} {data : Bytes} {st : ExitStatus} {t : Transport} {fuel : Nat} (j : Nat)
@@ -4180,8 +4295,7 @@ def C14Clause1 : Prop :=
     (hnoise : NoiseFits (alignedBufsize b) recs)
     (hs : StreamRecs p.id 5 content srecs) (hsn : NoiseFits (alignedBufsize b) srecs)
     (hin : t.input = serAll recs ++ serAll srecs) (hben : Ben t) (hev : hsCount t.events = 0)
-    (hfuel : t.rd.length + t.wr.length + 2 ≤ fuel)
-    (hhf : wcost data.length + 12 ≤ 1000),
+    (hfuel : t.rd.length + t.wr.length + 2 ≤ fuel),
     ∃ c', runTask fuel (conn0 b mc t data st) 0 (some j) = (c', "RET") ∧ c'.phase = .finished ∧
       (-- (0) seen by the request's own `parse_request`: no handler
        (hsCount c'.env.tr.events = 0 ∧ c'.env.tr.wlog <+: t.wlog ++ owedPreamble p mc recs) ∨
@@ -4197,7 +4311,7 @@ def C14Clause1 : Prop :=
 
 theorem C14Clause1_holds : C14Clause1 := by
   unfold C14Clause1
-  exact @stop_any_poll_single_e2e_exact_unbounded
+  exact @stop_any_poll_single_e2e_exact_nofuel
 
 end Fcgi.C14E
 end
@@ -4205,10 +4319,10 @@ end
 section
 namespace Fcgi.C14E
 open Fcgi Fcgi.Req Fcgi.Str Fcgi.Async Fcgi.Run Fcgi.Spec Fcgi.E2E Fcgi.C07E Fcgi.C07U
-/-- two requests: flag while request 2 in flight ⇒ both complete; between ⇒ request 2's handler never starts  (= `Fcgi.C14E.stop_any_poll_e2e_exact_unbounded`, `Props/C14Unbounded.lean`) -/
+/-- two requests: flag while request 2 in flight ⇒ both complete; between ⇒ request 2's handler never starts  (= `Fcgi.C14E.stop_any_poll_e2e_exact_nofuel`, `Props/C14NoFuel.lean`) -/
 def C14Clause2 : Prop :=
   ∀ {b mc : Nat} (q₁ q₂ : Sent) {t : Transport} {fuel : Nat} (j : Nat)
-    (hok₁ : q₁.OKu b) (hok₂ : q₂.OKu b) (hkeep : q₁.p.flags.toNat % 2 = 1)
+    (hok₁ : q₁.OKn b) (hok₂ : q₂.OKn b) (hkeep : q₁.p.flags.toNat % 2 = 1)
     (hin : t.input = q₁.wire) (hben : Ben t) (hev : hsCount t.events = 0)
     (hfuel : t.rd.length + t.wr.length + 3 ≤ fuel),
     ∃ c', runFeed fuel (connK b mc t [q₁, q₂]) 0 (some j) [q₂.wire] = (c', "RET") ∧ c'.phase = .finished ∧
@@ -4221,7 +4335,7 @@ def C14Clause2 : Prop :=
 
 theorem C14Clause2_holds : C14Clause2 := by
   unfold C14Clause2
-  exact @stop_any_poll_e2e_exact_unbounded
+  exact @stop_any_poll_e2e_exact_nofuel
 
 end Fcgi.C14E
 end
